@@ -233,3 +233,66 @@ func H_C12_registry() {
 	}
 	VReach("end")
 }
+
+// C12.regoverflow — a value-registry overflow raised through the real state (unpack, argument lists, inside
+// coroutines, while moving resume's arguments) is an ordinary error for the nearest protected call and leaves
+// the state working: the running-thread pointer, coroutine statuses and later calls are as they should be.
+var c12OverflowProgs = []string{
+	`local ok = pcall(unpack, T, 1, n); return ok`,
+	`local function f(...) return select('#', ...) end; local ok = pcall(function() return f(unpack(T, 1, n)) end); return ok`,
+	`local f = coroutine.wrap(function() return unpack(T, 1, n) end); local ok = pcall(f); return ok`,
+	`co = coroutine.create(function() return unpack(T, 1, n) end); local ok = coroutine.resume(co); return ok`,
+	// the coroutine needs 30 more registers than its caller: moving resume's arguments (or entering the body) overflows the coroutine's registry, not the caller's
+	`co = coroutine.create(function(...) local a1, a2, a3, a4, a5, a6, a7, a8, a9, a10, a11, a12, a13, a14, a15, a16, a17, a18, a19, a20, a21, a22, a23, a24, a25, a26, a27, a28, a29, a30; return select('#', ...) end); local ok = pcall(function() return coroutine.resume(co, unpack(T, 1, n)) end); return ok`,
+	`local ok = xpcall(function() return unpack(T, 1, n) end, function(m) return m end); return ok`,
+	`local f = coroutine.wrap(function() local g = coroutine.wrap(function() return unpack(T, 1, n) end); return pcall(g) end); local ok = pcall(f); return ok`,
+}
+
+//verif:harness prop=C12 tier=quick qparams=lo:105,hi:135 tparams=lo:90,hi:175 bounds="7 programs (unpack under pcall / xpcall, argument lists, inside wrapped and created coroutines, nested wraps, resume arguments); unpack(T, 1, n) with n symbolic in a window around the capacity ([105,135] quick, [90,175] thorough; the fixed registry has 128 slots, the growable one 128..160 by 16) over a 180-element table" maxpaths=6000 tmaxpaths=12000
+func H_C12_regoverflow() {
+	prog := c12OverflowProgs[VChoice(len(c12OverflowProgs))]
+	opt := Options{RegistrySize: 128}
+	growable := VChoice(2) == 1
+	if growable {
+		opt = Options{RegistrySize: 128, RegistryMaxSize: 160, RegistryGrowStep: 16}
+	}
+	opt.SkipOpenLibs = true
+	opt.CallStackSize = 32
+	L := NewState(opt)
+	for _, open := range []LGFunction{OpenBase, OpenCoroutine} {
+		L.Push(L.NewFunction(open))
+		L.Call(0, 0)
+	}
+	N := 180
+	T := L.NewTable()
+	for i := 1; i <= N; i++ {
+		T.RawSetInt(i, LNumber(i))
+	}
+	L.G.Global.RawSetString("T", T)
+	n := int(VByte("n"))
+	lo, hi := VParam("lo", 105), VParam("hi", 135)
+	if growable {
+		lo, hi = lo+32, hi+32
+	}
+	VAssume(VAnd(n >= lo, n <= hi))
+	L.G.Global.RawSetString("n", LNumber(n))
+	err := loadRun(L, prog, 1)
+	VAssert(err == nil, "regoverflow: the overflow never escapes the script's own protected call: "+prog)
+	if err == nil {
+		if L.Get(1) == LTrue {
+			VReach("fits")
+		} else {
+			VReach("overflow")
+		}
+	}
+	L.SetTop(0)
+	VAssert(L.G.CurrentThread == L, "regoverflow: the running thread is the main thread again: "+prog)
+	err = loadRun(L, `local st = co and coroutine.status(co) or 'none'; local ok, v = pcall(function() local a, b = 1, 2; return a + b end); return st, ok, v, coroutine.running() == nil`, 4)
+	VAssert(err == nil, "regoverflow: the state keeps working: "+prog)
+	if err == nil {
+		st := L.Get(1)
+		VAssert(st == LString("none") || st == LString("dead") || st == LString("suspended"), "regoverflow: no coroutine is left running or normal: "+prog)
+		VAssert(L.Get(2) == LTrue && L.Get(3) == LNumber(3) && L.Get(4) == LTrue, "regoverflow: later calls behave normally: "+prog)
+	}
+	VReach("end")
+}
